@@ -259,6 +259,23 @@ def sock_cases(tier):
                 out.append({"kind": "sockiter", "stream": f"chunked:{name}@{fault}{k}",
                             "wire": _chunked(data, [7]), "cfg": cfgs[0], "segs": [5] * 60,
                             "faults": {k: fault}, "encoding": 1})
+    # hostile chunk-size lines (a finite stream is a finite stream, whatever the peer sends)
+    f2 = items.frames()["F2"]["data"]
+    good = f"{len(f2):x}".encode() + b"\r\n" + f2 + b"\r\n"
+    for line in (b"ffffffffffffffffffff", b"7fffffffffffffff", b"8000000000000000", b"ffffffffffffffff",
+                 b"7fffffff", b"80000000", b"-5", b"-0", b"+3", b"0x3", b" 3 ", b"1_0", b"", b"zz", b"3;ext=1",
+                 b"00000003", b"FFFFFFFF", b"\x00", b"3\r", b"\xff\xfe"):
+        for body in (b"abc\r\n", b"", b"abc"):
+            for pre in (b"", good):
+                wire = pre + line + b"\r\n" + body + good + b"0\r\n\r\n"
+                for enc in (1, 3, 5, 9):
+                    for cfg in cfgs:
+                        out.append({"kind": "sockiter", "stream": f"chunksize:{line!r}/{len(body)}/{len(pre)}",
+                                    "wire": wire, "cfg": cfg, "encoding": enc})
+                    out.append({"kind": "sockiter", "stream": f"chunksize:{line!r}/{len(body)}/{len(pre)}/1",
+                                "wire": wire, "cfg": cfgs[1], "encoding": enc, "segs": [1] * len(wire)})
+                    out.append({"kind": "sockiter", "stream": f"chunksize:{line!r}/{len(body)}/{len(pre)}/7",
+                                "wire": wire, "cfg": cfgs[0], "encoding": enc, "segs": [7] * len(wire)})
     return out
 
 
